@@ -788,7 +788,7 @@ dupmember(struct type *t, struct type *a)
 	char *name;
 
 	for (m = a->u.structunion.members; m; m = m->next) {
-		if (m->name ? typemember(t, m->name, &(unsigned long long){0}) != NULL : (name = dupmember(t, m->type)) != NULL)
+		if (m->name ? typemember(t, m->name, &(unsigned long long){0}, NULL) != NULL : (name = dupmember(t, m->type)) != NULL)
 			return m->name ? m->name : name;
 	}
 	return NULL;
@@ -824,7 +824,7 @@ addmember(struct structbuilder *b, struct qualtype mt, char *name, int align, un
 	if (mt.type->prop & PROPVM)
 		error(&tok.loc, "struct member '%s' has variably modified type", dname);
 	assert(mt.type->align > 0);
-	if (name && typemember(t, name, &(unsigned long long){0}))
+	if (name && typemember(t, name, &(unsigned long long){0}, NULL))
 		error(&tok.loc, "duplicate member '%s'", dname);
 	if (!name && width == -1 && (mt.type->kind == TYPESTRUCT || mt.type->kind == TYPEUNION)) {
 		dup = dupmember(t, mt.type);
